@@ -2,9 +2,9 @@
    Theorems about the executable models Model/GridSample.v (GridSamplingOp: aten grid_sampler contract + the reshape
    wrapper) and Model/SliceProj.v (SliceProjectionOp.projection_matrix, _find_width).  The models are tied to /repo on every
    run by the correspondence families of harness/props/C20.py (vm_compute of the same definitions on seeded cases).
-   Rationals with Qeq (==).  reflection padding and erf/Gaussian profiles: implementation-level oracles only. *)
+   Rationals with Qeq (==).  reflection padding: coordinate map modelled (Model/GridReflect.v, theorems C20_grid_reflect_range etc.); erf/Gaussian profiles: implementation-level oracles only. *)
 From MrVerif Require Import Base.Prelude Model.GridSample Model.SliceProj Proofs.GridSampleProofs Proofs.SliceProjProofs
-  Proofs.SliceProjPermProofs Proofs.SliceProjWidthProofs Proofs.SliceProjAxisProofs.
+  Proofs.SliceProjPermProofs Proofs.SliceProjWidthProofs Proofs.SliceProjAxisProofs Model.GridReflect Proofs.GridReflectProofs.
 From Coq Require Import QArith Qround Qabs Morphisms.
 Local Open Scope Q_scope.
 
@@ -149,6 +149,31 @@ Print Assumptions C20_grid_bicubic_taps_in_range.
 (* ======================================================================= SliceProjectionOp *)
 
 (* all matrix weights are >= 0 for a non-negative profile: any rotation matrix, shift, width, volume shape *)
+(* ---- padding_mode='reflection' (model of aten's reflect_coordinates + clip; tied to the code by family grid_reflection: sampling with
+   reflection padding at g = sampling with border padding at the model's reflected position) ---- *)
+(* the reflected coordinate always lies inside the reflection interval [min, min + span] (pixel-centre borders for align_corners,
+   outer pixel edges otherwise), for every coordinate however far outside *)
+Theorem C20_grid_reflect_range : forall (tl th : Z) (x : Q), (tl < th)%Z ->
+  inject_Z tl / 2 <= reflectQ tl th x <= inject_Z tl / 2 + inject_Z (th - tl) / 2.
+Proof. intros tl th x H. exact (reflect_range tl th H x). Qed.
+Print Assumptions C20_grid_reflect_range.
+(* coordinates inside are left alone *)
+Theorem C20_grid_reflect_fixed : forall (tl th : Z) (x : Q), (tl < th)%Z ->
+  inject_Z tl / 2 <= x <= inject_Z tl / 2 + inject_Z (th - tl) / 2 -> reflectQ tl th x == x.
+Proof. intros tl th x H. exact (reflect_fixed tl th H x). Qed.
+Print Assumptions C20_grid_reflect_fixed.
+(* positions mirrored at the lower border are sampled alike *)
+Theorem C20_grid_reflect_even : forall (tl th : Z) (x : Q), reflectQ tl th (2 * (inject_Z tl / 2) - x) == reflectQ tl th x.
+Proof. exact reflect_even. Qed.
+Print Assumptions C20_grid_reflect_even.
+(* a grid location on a pixel centre addresses that pixel (identity grid gives the input back), both align_corners settings *)
+Theorem C20_grid_reflect_on_pixel : forall ac n j, (2 <= n)%Z -> (0 <= j < n)%Z -> pad_reflect ac n (inject_Z j) == inject_Z j.
+Proof. exact pad_reflect_on_pixel. Qed.
+Print Assumptions C20_grid_reflect_on_pixel.
+Example C20_grid_reflect_example :
+  reflectQ 0 6 (-(5 # 4)) == 5 # 4 /\ reflectQ 0 6 (17 # 4) == 7 # 4 /\ reflectQ (-1) 7 (-(3 # 2)) == 1 # 2 /\ reflectQ (-1) 7 (9 # 1) == 1.
+Proof. vm_compute. repeat split; reflexivity. Qed.
+
 Theorem C20_slice_nonneg : forall g r c, (forall d, 0 <= prof g d) -> forall e, In e (row g r c) -> 0 <= snd e.
 Proof. exact row_nonneg. Qed.
 Print Assumptions C20_slice_nonneg.
